@@ -129,7 +129,7 @@ def run(ctx):
                         pts.add(v)
             for a in sorted(pts):
                 ncell += 1
-                env = {"args": {"address": a, 2: a}, "calls": {"Debugger::orig": lambda *_: orig}}
+                env = {"args": {"address": a, 2: a}, "calls": {"Debugger::orig": lambda *_: orig}, "prog": prog}
                 try:
                     lab = formula.eval_decision(tree, env)
                 except (formula.Unknown, formula.Overflow) as e:
